@@ -4,10 +4,10 @@
 CRDT = [("crdt-counter", {"quick": ["-n", "120"], "thorough": ["-n", "1500"], "search": ["-n", "1500"]}),
         ("crdt-map", {"quick": ["-n", "150"], "thorough": ["-n", "1500"], "search": ["-n", "1500"]}),
         ("crdt-list", {"quick": ["-n", "150"], "thorough": ["-n", "1500"], "search": ["-n", "1500"]})]
-WIRE = [("wire-counter", {"quick": ["-n", "40"], "thorough": ["-n", "300"], "search": ["-n", "400"]}),
-        ("wire-map", {"quick": ["-n", "40"], "thorough": ["-n", "300"], "search": ["-n", "400"]}),
-        ("wire-list", {"quick": ["-n", "40"], "thorough": ["-n", "300"], "search": ["-n", "400"]}),
-        ("wire-doc", {"quick": ["-n", "30"], "thorough": ["-n", "240"], "search": ["-n", "300"]})]
+WIRE = [("wire-counter", {"quick": ["-n", "40"], "thorough": ["-n", "300"], "search": ["-n", "120"]}),
+        ("wire-map", {"quick": ["-n", "40"], "thorough": ["-n", "300"], "search": ["-n", "120"]}),
+        ("wire-list", {"quick": ["-n", "40"], "thorough": ["-n", "300"], "search": ["-n", "120"]}),
+        ("wire-doc", {"quick": ["-n", "30"], "thorough": ["-n", "240"], "search": ["-n", "90"]})]
 WIREF = [(n, {k: v + ["-faults"] for k, v in a.items()}) for (n, a) in WIRE]
 WIRED = [(n, {k: v + ["-dbfaults"] for k, v in a.items()}) for (n, a) in WIRE]
 SRV_TRUST = ["in-memory MongoDB wire-protocol server (harness/fakemongo) standing in for mongod: unique _id, ordered insertMany, upsert, find with sort — assumed to match MongoDB for the operators orda uses",
